@@ -552,3 +552,117 @@ Proof.
   destruct (a_get_action a); try discriminate;
     (eapply store_noncmd in H; [|exact Hs|exact Habs]; exact H).
 Qed.
+
+(** * 4. The defaults phase: [add_default_value], [add_defaults] *)
+
+(** "the condition of a [default_value_if] rule holds" as the code and the documentation define
+    it: the named argument has an entry in the matcher (whatever its source) and, for
+    [Equals v], one of its raw values is [v] *)
+Definition rule_holds (m : matcher) (r : id * pred * option bytes) : bool :=
+  let '(i, p, _) := r in
+  match fm_get i (mt_args m) with
+  | Some ma => match p with
+               | PEquals v => existsb (beq v) (concat (m_raw ma))
+               | PIsPresent => true end
+  | None => false end.
+
+(** the raw default values an argument without an entry receives: the first rule (in declaration
+    order) whose condition holds decides — its value, or nothing at all when the rule carries
+    no value; only when no rule fires do the plain defaults apply *)
+Inductive default_choice (a : arg) (m : matcher) : option (list bytes) -> Prop :=
+| DC_rule l1 i p d l2 :
+    a_default_ifs a = l1 ++ (i, p, d) :: l2 ->
+    (forall r, In r l1 -> rule_holds m r = false) ->
+    rule_holds m (i, p, d) = true ->
+    default_choice a m (opt_map (fun x => [x]) d)
+| DC_plain :
+    (forall r, In r (a_default_ifs a) -> rule_holds m r = false) ->
+    default_choice a m (if is_nil (a_default a) then None else Some (a_default a)).
+
+Lemma find_split {A} (f : A -> bool) : forall l x, List.find f l = Some x ->
+  exists l1 l2, l = l1 ++ x :: l2 /\ f x = true /\ forall y, In y l1 -> f y = false.
+Proof.
+  induction l as [|h t IH]; intros x; cbn [List.find]; [discriminate|].
+  destruct (f h) eqn:E.
+  - intros H; inversion H; subst. exists [], t. repeat split; [exact E | intros y []].
+  - intros H. destruct (IH x H) as [l1 [l2 [-> [Hx Hl]]]].
+    exists (h :: l1), l2. repeat split; [exact Hx|]. intros y [<-|Hy]; [exact E | apply Hl; exact Hy].
+Qed.
+
+Lemma resolve_pending_none c st : mt_pending (mt st) = None -> resolve_pending c st = ROk st.
+Proof. intros H. unfold resolve_pending. rewrite H. reflexivity. Qed.
+
+Lemma react_no_pending c idn s a raw ti st :
+  mt_pending (mt st) = None -> react c idn s a raw ti st = react_core c idn s a raw ti st.
+Proof. intros H. unfold react. rewrite (resolve_pending_none c st H). reflexivity. Qed.
+
+(** the state after a [react] with source [DefaultValue] on an argument without an entry:
+    exactly one entry is appended *)
+Definition default_added (c : cmd) (a : arg) (raw : list bytes) (st st' : ps) : Prop :=
+  exists vs e, delimit c a raw None = Some vs /\ vs <> []
+    /\ mt_args (mt st') = mt_args (mt st) ++ [(a_id a, e)]
+    /\ m_source e = Some SDefault /\ m_raw e = [vs] /\ m_is_group e = false
+    /\ mt_pending (mt st') = mt_pending (mt st) /\ mt_sub (mt st') = mt_sub (mt st).
+
+Lemma react_default c a raw st x :
+  mt_pending (mt st) = None -> raw <> [] -> fm_get (a_id a) (mt_args (mt st)) = None ->
+  react c None SDefault a raw None st = ROk x -> default_added c a raw st (fst x).
+Proof.
+  intros Hp Hr Habs H. rewrite (react_no_pending _ _ _ _ _ _ _ Hp) in H. destruct x as [st' pr].
+  apply react_core_noncmd in H; [|discriminate|exact Hr|exact Habs].
+  destruct H as [vs [Hd [Hvs [_ [H2 [_ [P [S H6]]]]]]]].
+  destruct (H2 (or_intror eq_refl)) as [e [Ge [Se [Re Ie]]]].
+  destruct (H6 eq_refl) as [e' Happ].
+  assert (e' = e).
+  { rewrite Happ, fm_get_app, Habs in Ge. cbn in Ge. rewrite beq_refl in Ge. congruence. }
+  subst e'. exists vs, e. cbn [fst]. repeat split; assumption.
+Qed.
+
+Theorem add_default_value_spec c a st st' :
+  mt_pending (mt st) = None -> add_default_value c a st = ROk st' ->
+  (fm_get (a_id a) (mt_args (mt st)) <> None -> st' = st)
+  /\ (fm_get (a_id a) (mt_args (mt st)) = None ->
+      exists ch, default_choice a (mt st) ch /\
+        match ch with
+        | None => st' = st
+        | Some raw => default_added c a raw st st'
+        end).
+Proof.
+  intros Hp H. unfold add_default_value in H. unfold mt_contains in H.
+  assert (Hplain : forall st0, st0 = st ->
+     (if negb (is_nil (a_default a))
+      then if fm_contains (a_id a) (mt_args (mt st0)) then ROk st0
+           else do x <- react c None SDefault a (a_default a) None st0; ROk (fst x)
+      else ROk st0) = ROk st' ->
+     (fm_get (a_id a) (mt_args (mt st)) <> None -> st' = st)
+     /\ (fm_get (a_id a) (mt_args (mt st)) = None ->
+          match (if is_nil (a_default a) then None else Some (a_default a)) with
+          | None => st' = st | Some raw => default_added c a raw st st' end)).
+  { intros st0 -> Hq. destruct (is_nil (a_default a)) eqn:En; cbn [negb] in Hq.
+    - inversion Hq; subst. split; intros _; reflexivity.
+    - unfold fm_contains in Hq. destruct (fm_get (a_id a) (mt_args (mt st))) as [e|] eqn:Eg; cbn [is_some] in Hq.
+      + inversion Hq; subst. split; [reflexivity | discriminate].
+      + split; [intros Hne; contradiction|]. intros _.
+        destruct (react c None SDefault a (a_default a) None st) as [x| |] eqn:Er; [|discriminate|discriminate].
+        cbn [rbind] in Hq. inversion Hq; subst st'.
+        apply (react_default c a _ st x Hp); [|exact Eg|exact Er].
+        destruct (a_default a); [discriminate|discriminate]. }
+  unfold fm_contains in H.
+  destruct (fm_get (a_id a) (mt_args (mt st))) as [e|] eqn:Eg; cbn [is_some negb] in H.
+  - rewrite andb_false_r in H. destruct (Hplain st eq_refl H) as [H1 _]. split; [intros _; apply H1; discriminate | discriminate].
+  - split; [intros Hne; contradiction|]. intros _.
+    destruct (is_nil (a_default_ifs a)) eqn:Ei; cbn [negb andb] in H.
+    + destruct (Hplain st eq_refl H) as [_ H2]. eexists. split; [|apply H2; reflexivity].
+      apply DC_plain. destruct (a_default_ifs a); [intros r []|discriminate].
+    + change (List.find _ (a_default_ifs a)) with (List.find (rule_holds (mt st)) (a_default_ifs a)) in H.
+      destruct (List.find (rule_holds (mt st)) (a_default_ifs a)) as [[[i p] d]|] eqn:Ef.
+      * apply find_split in Ef. destruct Ef as [l1 [l2 [Hl [Hh Hn]]]].
+        exists (opt_map (fun x => [x]) d). split; [eapply DC_rule; eassumption|].
+        destruct d as [d|]; cbn [opt_map].
+        -- destruct (react c None SDefault a [d] None st) as [x| |] eqn:Er; [|discriminate|discriminate].
+           cbn [rbind] in H. inversion H; subst st'.
+           apply (react_default c a _ st x Hp); [discriminate|exact Eg|exact Er].
+        -- inversion H; reflexivity.
+      * destruct (Hplain st eq_refl H) as [_ H2]. eexists. split; [|apply H2; reflexivity].
+        apply DC_plain. intros r Hr. apply (find_none _ _ Ef r Hr).
+Qed.
